@@ -99,24 +99,28 @@ pub fn prog() -> BoxedStrategy<Prog> {
         .boxed()
 }
 
-const RAW_OPS: &[(Operation, u16)] = &[
-    (Operation::PrintJob, 0x0002),
-    (Operation::ValidateJob, 0x0004),
-    (Operation::GetJobs, 0x000a),
-    (Operation::HoldJob, 0x000c),
-    (Operation::PausePrinter, 0x0010),
-    (Operation::CupsGetDefault, 0x4001),
-    (Operation::CupsMoveJob, 0x400d),
-    (Operation::CupsCreateLocalPrinter, 0x4028),
-];
-const RAW_STATUS: &[(StatusCode, u16)] = &[
-    (StatusCode::SuccessfulOk, 0x0000),
-    (StatusCode::SuccessfulOkConflictingAttributes, 0x0002),
-    (StatusCode::ClientErrorNotFound, 0x0406),
-    (StatusCode::ClientErrorDocumentAccessError, 0x0412),
-    (StatusCode::ServerErrorBusy, 0x0507),
-    (StatusCode::ServerErrorMultipleDocumentJobsNotSupported, 0x0509),
-];
+macro_rules! table {
+    ($t:ident: $($v:ident = $c:expr),* $(,)?) => { &[$(($t::$v, $c)),*] };
+}
+/// every operation / status symbol with the code the registries assign (typed here, as in C16)
+const RAW_OPS: &[(Operation, u16)] = table![Operation:
+    PrintJob = 0x0002, PrintUri = 0x0003, ValidateJob = 0x0004, CreateJob = 0x0005, SendDocument = 0x0006, SendUri = 0x0007, CancelJob = 0x0008,
+    GetJobAttributes = 0x0009, GetJobs = 0x000a, GetPrinterAttributes = 0x000b, HoldJob = 0x000c, ReleaseJob = 0x000d, RestartJob = 0x000e,
+    PausePrinter = 0x0010, ResumePrinter = 0x0011, PurgeJobs = 0x0012, CupsGetDefault = 0x4001, CupsGetPrinters = 0x4002, CupsAddModifyPrinter = 0x4003,
+    CupsDeletePrinter = 0x4004, CupsGetClasses = 0x4005, CupsAddModifyClass = 0x4006, CupsDeleteClass = 0x4007, CupsAcceptJobs = 0x4008,
+    CupsRejectJobs = 0x4009, CupsSetDefault = 0x400a, CupsGetDevices = 0x400b, CupsGetPPDs = 0x400c, CupsMoveJob = 0x400d,
+    CupsAuthenticateJob = 0x400e, CupsGetPPD = 0x400f, CupsGetDocument = 0x4027, CupsCreateLocalPrinter = 0x4028];
+const RAW_STATUS: &[(StatusCode, u16)] = table![StatusCode:
+    SuccessfulOk = 0x0000, SuccessfulOkIgnoredOrSubstitutedAttributes = 0x0001, SuccessfulOkConflictingAttributes = 0x0002,
+    ClientErrorBadRequest = 0x0400, ClientErrorForbidden = 0x0401, ClientErrorNotAuthenticated = 0x0402, ClientErrorNotAuthorized = 0x0403,
+    ClientErrorNotPossible = 0x0404, ClientErrorTimeout = 0x0405, ClientErrorNotFound = 0x0406, ClientErrorGone = 0x0407,
+    ClientErrorRequestEntityTooLong = 0x0408, ClientErrorRequestValueTooLong = 0x0409, ClientErrorDocumentFormatNotSupported = 0x040a,
+    ClientErrorAttributesOrValuesNotSupported = 0x040b, ClientErrorUriSchemeNotSupported = 0x040c, ClientErrorCharsetNotSupported = 0x040d,
+    ClientErrorConflictingAttributes = 0x040e, ClientErrorCompressionNotSupported = 0x040f, ClientErrorCompressionError = 0x0410,
+    ClientErrorDocumentFormatError = 0x0411, ClientErrorDocumentAccessError = 0x0412, ServerErrorInternalError = 0x0500,
+    ServerErrorOperationNotSupported = 0x0501, ServerErrorServiceUnavailable = 0x0502, ServerErrorVersionNotSupported = 0x0503,
+    ServerErrorDeviceError = 0x0504, ServerErrorTemporaryError = 0x0505, ServerErrorNotAcceptingJobs = 0x0506, ServerErrorBusy = 0x0507,
+    ServerErrorJobCanceled = 0x0508, ServerErrorMultipleDocumentJobsNotSupported = 0x0509, UnknownStatusCode = 0xffff];
 
 /// the model's view of a program: what the arguments describe
 #[derive(Default, Debug)]
@@ -809,6 +813,10 @@ pub fn judge_traversal(v: &CValue, pr: &Probe) -> Judge {
         o => vec![o.clone()],
     };
     let nt = expected.len() >= 2;
+    if matches!(v, CValue::Set(l) if l.len() <= 1) {
+        pr.label("traversal: set with 0 or 1 element");
+        pr.nontrivial(hash64(v));
+    }
     if nt {
         pr.nontrivial(hash64(v));
         pr.label("traversal: set/collection with >=2 elements");
@@ -848,11 +856,18 @@ pub fn judge_traversal(v: &CValue, pr: &Probe) -> Judge {
 }
 
 pub fn run_c19(ctx: &Ctx) {
-    ctx.set_rule("(a) proptest-generated histories: start state (empty container, a constructor's message, or a parser-produced message that may contain repeated groups) followed by 0-39 add(kind, name, value) operations with names from a small pool (so replacement happens); after EVERY step (one evaluation each) groups(), groups_of(k) for all four kinds and finally into_groups() are compared with an ordered-list-of-groups model. (b) generated values: traversal yields set elements in order / collection member values in byte-lexicographic member-name order / the value itself once, then None on three further calls. Non-trivial = history with a replacement and an add to a kind that occurs twice, or a traversed set/collection with >=2 elements; distinct by hash.");
+    ctx.set_rule("(a) proptest-generated histories: start state (empty container, a constructor's message, or a parser-produced message that may contain repeated groups) followed by 0-39 add(kind, name, value) operations with names from a small pool (so replacement happens); after EVERY step (one evaluation each) groups(), groups_of(k) for all four kinds and finally into_groups() are compared with an ordered-list-of-groups model. (b) generated values (incl. sets with 0 or 1 element whose element is itself a set or collection): traversal yields set elements in order / collection member values in byte-lexicographic member-name order / the value itself once, then None on three further calls. Non-trivial = history with a replacement and an add to a kind that occurs twice, or a traversed set/collection with >=2 elements; distinct by hash.");
     let (shards, per) = ctx.tier.pick((16, 2000), (16, 40000));
     run_prop(ctx, "add-history", shards, per, history, judge_c19, history_json);
     let (shards, per) = ctx.tier.pick((16, 10000), (16, 150000));
-    run_prop(ctx, "traversal", shards, per, || gen::m_value(3, false), judge_traversal, cvalue_json);
+    let small_sets = || {
+        prop_oneof![
+            1 => Just(CValue::Set(vec![])),
+            3 => gen::m_value(2, false).prop_map(|v| CValue::Set(vec![v])),
+            1 => gen::m_value(1, false).prop_map(|v| CValue::Set(vec![CValue::Set(vec![v.clone(), v])])),
+        ]
+    };
+    run_prop(ctx, "traversal", shards, per, || prop_oneof![6 => gen::m_value(3, false), 1 => small_sets().boxed()], judge_traversal, cvalue_json);
 }
 
 pub fn replay_c19(ctx: &Ctx, sub: &str, case: &Value) -> Judge {
